@@ -378,7 +378,7 @@ func (ex *Exec) unop(st *State, fr *Frame, in *ssa.UnOp) Value {
 		if st.dead() {
 			return nil
 		}
-		return ex.load(st, x)
+		return ex.loadTyped(st, x, in.Type())
 	case token.ARROW:
 		return ex.chanRecv(st, fr, in, x, in.CommaOk)
 	}
@@ -779,3 +779,16 @@ func zeroOrNil(t types.Type) Value {
 }
 
 var _ = math.Inf
+
+func (ex *Exec) loadTyped(st *State, p Value, t types.Type) (v Value) {
+	defer func() {
+		if e := recover(); e != nil {
+			if e == errEmptyIndex {
+				v = zeroValue(t)
+				return
+			}
+			panic(e)
+		}
+	}()
+	return ex.load(st, p)
+}
